@@ -6,7 +6,7 @@ cd /verif
 for d in /verif/seeded/*/; do
   n=$(basename "$d")
   p=$(python3 -c "import json;print(json.load(open('$d/meta.json'))['breaks_property'])")
-  if [ "$p" = "C20" ] && grep -q "scratch\|race" "$d/notes.md" 2>/dev/null && [ "$n" = "C20b-did-signbytes-shared-scratch" ]; then
+  if [ "$p" = "C20" ] && { [ "$n" = "C20b-did-signbytes-shared-scratch" ] || [ "$n" = "C20y-keytype-warn-once-map" ]; }; then
     out=$(/verif/mutrace.sh "$d/patch.diff" 2>&1); if echo "$out" | grep -q "^VIOLATION property=C20"; then echo "CAUGHT $n by C20 (race build)"; else echo "MISSED $n"; fi; continue
   fi
   out=$(VERIF_KS_QUICK_S=12 ./mutcheck.sh "$d/patch.diff" "$B" "$p" 2>&1)
